@@ -5,6 +5,8 @@ package api
 // current watch predicates, synchronously (no polling delay). It adds no logic of its
 // own: it runs the real rebuild() in watch mode and hands back the real closures.
 
+import "sort"
+
 // VerifWatchRebuild rebuilds ctx in watch mode and returns the build result together
 // with a function that evaluates every watch predicate of that build and returns the
 // paths reported dirty (sorted by the caller).
@@ -18,10 +20,16 @@ func VerifWatchRebuild(c BuildContext) (BuildResult, func() []string, bool) {
 	ctx.mutex.Unlock()
 	state := ctx.rebuild()
 	paths := state.watchData.Paths
+	// evaluate the predicates in sorted order so that a simulated run is repeatable
+	keys := make([]string, 0, len(paths))
+	for k := range paths {
+		keys = append(keys, k)
+	}
+	sort.Strings(keys)
 	return state.result, func() []string {
 		var dirty []string
-		for _, fn := range paths {
-			if p := fn(); p != "" {
+		for _, k := range keys {
+			if p := paths[k](); p != "" {
 				dirty = append(dirty, p)
 			}
 		}
